@@ -1,3 +1,4 @@
+use std::convert::TryFrom;
 use crate::bitstr::*;
 use crate::cell::*;
 use crate::error::*;
@@ -564,10 +565,11 @@ fn peek_bits(xs: &mut Xstate, n: usize) -> Xresult1<Xbitstr> {
 
 fn read_unsigned(xs: &mut Xstate, n: usize, bo: Byteorder) -> Xresult {
     let s = peek_bits(xs, n)?;
-    if s.len() > (Xint::BITS - 1) as usize {
+    if s.len() > Xint::BITS as usize {
         return Err(Xerr::IntegerOverflow);
     }
-    let x = s.to_uint(bo) as Xint;
+    // a 128-bit field is fine as long as its value fits the signed integer type
+    let x = Xint::try_from(s.to_uint(bo)).map_err(|_| Xerr::IntegerOverflow)?;
     let end = s.end();
     commit_read(xs, end, Cell::from(x).with_tags(bitstr_num_tags(s, bo)))
 }
